@@ -70,14 +70,20 @@ func (vs *VoteSummary) SetPrevotePowers(vals []Validator, prevotes map[string]gc
 
 	var maxHash string
 	var maxPow uint64
-	var bs bitset.BitSet
+	var bs, voted bitset.BitSet
 	for blockHash, proof := range prevotes {
 		proof.SignatureBitSet(&bs)
 		var blockPow uint64
 		for i, ok := bs.NextSet(0); ok && int(i) < len(vals); i, ok = bs.NextSet(i + 1) {
 			valPow := vals[int(i)].Power
-			vs.TotalPrevotePower += valPow
 			blockPow += valPow
+
+			// A validator who signed for more than one target
+			// still only counts once towards the total.
+			if !voted.Test(i) {
+				voted.Set(i)
+				vs.TotalPrevotePower += valPow
+			}
 		}
 
 		vs.PrevoteBlockPower[string(blockHash)] = blockPow
@@ -99,14 +105,20 @@ func (vs *VoteSummary) SetPrecommitPowers(vals []Validator, precommits map[strin
 
 	var maxHash string
 	var maxPow uint64
-	var bs bitset.BitSet
+	var bs, voted bitset.BitSet
 	for blockHash, proof := range precommits {
 		proof.SignatureBitSet(&bs)
 		var blockPow uint64
 		for i, ok := bs.NextSet(0); ok && int(i) < len(vals); i, ok = bs.NextSet(i + 1) {
 			valPow := vals[int(i)].Power
-			vs.TotalPrecommitPower += valPow
 			blockPow += valPow
+
+			// A validator who signed for more than one target
+			// still only counts once towards the total.
+			if !voted.Test(i) {
+				voted.Set(i)
+				vs.TotalPrecommitPower += valPow
+			}
 		}
 
 		vs.PrecommitBlockPower[string(blockHash)] = blockPow
